@@ -1,6 +1,6 @@
 (** models/storage/sediment_trapping.go : storageParticulateTrapping.
-    Definitions only.  There is no minimum-volume guard in this model: the
-    concentration is [storedMass / storageWorkingVolume] whatever the volume. *)
+    Definitions only.  When the working volume is not positive nothing is
+    released and the stored mass is kept (no flush in this model). *)
 From Coq Require Import ZArith List.
 From OW Require Import Base.Arith Base.Mealy Kernels.C12Common.
 Import ListNotations.
@@ -44,8 +44,11 @@ Section K.
     let storedMass1 := storedMass + incomingMass - dailyTrappedConstituentLoad in
     let storageOutflowRate := ti_outflow x in
     let storageWorkingVolume := storageOutflowRate * deltaT + ti_storage x in
-    let concentration := storedMass1 / storageWorkingVolume in
-    let massOutRate := storageOutflowRate * concentration in
+    let massOutRate :=
+      if storageWorkingVolume >? zero then
+        let concentration := storedMass1 / storageWorkingVolume in
+        storageOutflowRate * concentration
+      else zero in
     (amax (storedMass1 - (massOutRate * deltaT)) zero,
      {| to_trappedMass := dailyTrappedConstituentLoad; to_outflowLoad := massOutRate |}).
 
